@@ -7,6 +7,7 @@ They are replayed by the checks on every run (known entries must still fail, fix
 from __future__ import annotations
 import io
 import os
+import shutil
 import tempfile
 import warnings
 
@@ -240,6 +241,59 @@ _""".encode()
             return True, f"read raised {type(e).__name__}: {e}"
     finally:
         os.remove(path); os.rmdir(d)
+
+
+def _vtr(extent, whole, xs, ys, zs, pvals, cvals):
+    def arr(name, v):
+        return (f'<DataArray type="Float64" Name="{name}" NumberOfComponents="1" format="ascii">'
+                f'{" ".join(repr(float(x)) for x in v)}</DataArray>')
+    return (f'<?xml version="1.0"?>\n<VTKFile type="RectilinearGrid" version="1.0" byte_order="LittleEndian" '
+            f'header_type="UInt64">\n<RectilinearGrid WholeExtent="{whole}"><Piece Extent="{extent}">'
+            f'<PointData>{arr("p", pvals)}</PointData><CellData>{arr("c", cvals)}</CellData>'
+            f'<Coordinates>{arr("X_0", xs)}{arr("X_1", ys)}{arr("X_2", zs)}</Coordinates></Piece>'
+            f'</RectilinearGrid>\n</VTKFile>\n')
+
+
+def _pvtr_vs_whole(pieces, whole_extent, whole):
+    from fieldcompare.io import read_field_data
+    d = tempfile.mkdtemp(prefix="fcv_w_")
+    try:
+        lines = []
+        for i, (ext, xs, ys, zs, pv, cv) in enumerate(pieces):
+            with open(os.path.join(d, f"p{i}.vtr"), "w") as fh:
+                fh.write(_vtr(ext, whole_extent, xs, ys, zs, pv, cv))
+            lines.append(f'<Piece Extent="{ext}" Source="p{i}.vtr"/>')
+        with open(os.path.join(d, "w.vtr"), "w") as fh:
+            fh.write(_vtr(*([whole[0], whole_extent] + list(whole[1:]))))
+        with open(os.path.join(d, "g.pvtr"), "w") as fh:
+            fh.write(f'<?xml version="1.0"?>\n<VTKFile type="PRectilinearGrid">\n<PRectilinearGrid '
+                     f'WholeExtent="{whole_extent}">{"".join(lines)}</PRectilinearGrid>\n</VTKFile>\n')
+        seq = np.asarray(read_field_data(os.path.join(d, "w.vtr")).domain.points).tolist()
+        try:
+            par = np.asarray(read_field_data(os.path.join(d, "g.pvtr")).domain.points).tolist()
+        except Exception as e:  # noqa: BLE001
+            return f"{type(e).__name__}: {e}", seq
+        return par, seq
+    finally:
+        shutil.rmtree(d, ignore_errors=True)
+
+
+def F16():
+    """C06: .pvtr of a grid in the x-z plane split along z: wrong piece consulted for the z ordinates"""
+    par, seq = _pvtr_vs_whole(
+        [("0 1 0 0 0 1", [0, 1], [0], [0, 5], [1, 2, 3, 4], [1]),
+         ("0 1 0 0 1 3", [0, 1], [0], [5, 6, 7], [3, 4, 5, 6, 7, 8], [2, 3])],
+        "0 1 0 0 0 3", ("0 1 0 0 0 3", [0, 1], [0], [0, 5, 6, 7], [1, 2, 3, 4, 5, 6, 7, 8], [1, 2, 3]))
+    return par != seq, f"z of the parallel grid: {sorted({p[2] for p in par}) if isinstance(par, list) else par}, whole: {sorted({p[2] for p in seq})}"
+
+
+def F17():
+    """C06: .pvtr of an x-y grid lying at z = 7: the merged grid sits at z = 0"""
+    par, seq = _pvtr_vs_whole(
+        [("0 1 0 1 0 0", [0, 1], [0, 1], [7], [1, 2, 4, 5], [1]),
+         ("1 2 0 1 0 0", [1, 2], [0, 1], [7], [2, 3, 5, 6], [2])],
+        "0 2 0 1 0 0", ("0 2 0 1 0 0", [0, 1, 2], [0, 1], [7], [1, 2, 3, 4, 5, 6], [1, 2]))
+    return par != seq, f"z of the parallel grid: {sorted({p[2] for p in par}) if isinstance(par, list) else par}, whole: {sorted({p[2] for p in seq})}"
 
 
 ALL = {n: f for n, f in globals().items() if n.startswith("F") and n[1:].isdigit() and callable(f)}
